@@ -299,6 +299,127 @@ pub fn run(ctx: &mut Ctx) {
         rep.sample(|| json!({"stage":"folds","source":macro_src,"list_len":len,"outcome":mon::clip(&out.show(), 160)}));
     });
 
+    // ---- the same folds with a map as receiver: the loop variable ranges over the keys -------------
+    let nmf = ctx.n(20_000, 200_000);
+    ctx.stage("folds-on-maps", nmf, true, |_idx, rng, rep| {
+        let mac = *rng.pick(&["map", "filter", "map3"]);
+        let nkeys = rng.below(6);
+        let mut m = std::collections::HashMap::new();
+        for _ in 0..nkeys {
+            m.insert(rng.pick(&["a", "b", "k", "size", "é", "", "zz", "x1"]).to_string(), CelValue::from_int(rng.range(-3, 3)));
+        }
+        let xname = rng.pick(&["k", "x", "outer1", "size"]).to_string();
+        let outer = vec![VarDecl { name: "outer1".into(), ty: Ty::Int }, VarDecl { name: "m".into(), ty: Ty::Map(Box::new(Ty::Int)) }];
+        let mut binds: Vec<(String, CelValue)> = vec![("outer1".into(), rng.range(-5, 5).into()), ("m".into(), CelValue::from_map(m.clone()))];
+        if xname != "outer1" && rng.chance(1, 2) {
+            binds.push((xname.clone(), 12345.into()));
+        }
+        let mut cfg = GenCfg::basic(outer.iter().filter(|v| v.name != xname).cloned().collect());
+        cfg.vars.push(VarDecl { name: xname.clone(), ty: Ty::Str });
+        cfg.allow_fstr = false;
+        cfg.loop_names = vec![xname.clone(), "y".into()];
+        let d = 1 + rng.below(3) as u32;
+        let (b1, b2) = {
+            let mut g = Gen::new(rng, cfg);
+            match mac {
+                "map" => {
+                    let t = gen::random_ty(g.rng, 0);
+                    (g.expr(&t, d), None)
+                }
+                "filter" => (g.cond(d), None),
+                _ => {
+                    let t = gen::random_ty(g.rng, 0);
+                    (g.cond(d), Some(g.expr(&t, d)))
+                }
+            }
+        };
+        let b1s = gen::src(&call("obs", vec![lit(1), b1]));
+        let b2s = b2.map(|b| gen::src(&call("obs", vec![lit(2), b])));
+        let macro_src = match mac {
+            "map3" => format!("m.map({}, {}, {})", xname, b1s, b2s.as_ref().unwrap()),
+            "filter" => format!("m.filter({}, {})", xname, b1s),
+            _ => format!("m.map({}, {})", xname, b1s),
+        };
+        let mut env = CelContext::new();
+        let mut ok = env.add_program_str("main", &macro_src).is_ok() && env.add_program_str("b1", &b1s).is_ok();
+        if let Some(s) = &b2s {
+            ok &= env.add_program_str("b2", s).is_ok();
+        }
+        if !ok {
+            rep.count("compile_rejected");
+            return;
+        }
+        // the fixed order: whatever order `m.map(k, k)` reports for this very map
+        let order = match mon::run1("m.map(zz9, zz9)", &binds) {
+            Out::Val(CelValue::List(l)) => l,
+            other => {
+                rep.viol("map-fold|keys", &format!("m.map(k, k) gave {}", other.show()), json!({"bindings": mon::binds_json(&binds)}));
+                return;
+            }
+        };
+        let mut want_log: Vec<i64> = Vec::new();
+        let mut kept: Vec<CelValue> = Vec::new();
+        let mut failed = false;
+        for key in &order {
+            let eb = with(&binds, &xname, key);
+            let (o, l) = exec_env(&mut env, "b1", &eb);
+            want_log.extend(l);
+            let v = match o {
+                Out::Val(v) => v,
+                _ => {
+                    failed = true;
+                    break;
+                }
+            };
+            match mac {
+                "map" => kept.push(v),
+                "filter" => {
+                    if truthy(&v) {
+                        kept.push(key.clone());
+                    }
+                }
+                _ => {
+                    if truthy(&v) {
+                        let (o2, l2) = exec_env(&mut env, "b2", &eb);
+                        want_log.extend(l2);
+                        match o2 {
+                            Out::Val(v2) => kept.push(v2),
+                            _ => {
+                                failed = true;
+                                break;
+                            }
+                        }
+                    }
+                }
+            }
+        }
+        let (out, log) = exec_env(&mut env, "main", &binds);
+        rep.eval();
+        rep.count(&format!("macro-on-map/{}", mac));
+        let okv = match (&out, failed) {
+            (Out::Panic(..), _) => false,
+            (Out::Err(_), true) => true,
+            (Out::Val(v), false) => canon(v) == canon(&CelValue::from_list(kept.clone())),
+            _ => false,
+        };
+        if !okv {
+            rep.viol(
+                &format!("map-fold|{}|{}", mac, if failed { "should-fail" } else { "wrong-value" }),
+                &format!("{}: fold over the keys {:?} predicts {}, macro gave {}", macro_src, order.iter().map(canon).collect::<Vec<_>>(),
+                    if failed { "a failure".to_string() } else { canon(&CelValue::from_list(kept.clone())) }, out.show()),
+                json!({"source": macro_src, "bindings": mon::binds_json(&binds)}),
+            );
+        }
+        if log != want_log {
+            rep.viol(
+                &format!("map-visits|{}", mac),
+                &format!("{}: body evaluations observed {:?}, expected {:?}", macro_src, &log[..log.len().min(12)], &want_log[..want_log.len().min(12)]),
+                json!({"source": macro_src, "bindings": mon::binds_json(&binds)}),
+            );
+        }
+        rep.distinct(&format!("{}|{}", macro_src, canon(&CelValue::from_map(m.clone()))), nkeys >= 2);
+    });
+
     // ---- maps: filter / map range over the keys in one fixed order ------------------------------
     let nm = ctx.n(3_000, 30_000);
     ctx.stage("map-order", nm, true, |_idx, rng, rep| {
